@@ -31,7 +31,7 @@ def wholeOps (op : String) (a : List String) : Option String :=
   | "whole.rt", _ => some "ok"
   | "whole.parse", [x] =>
       let ls := splitLines (argHex x)
-      some (if textRisky ls then "skip" else match readTop (ls.length + 1) ls with
+      some (if textRisky ls || headerRisky ls then "skip" else match readTop (ls.length + 1) ls with
         | none => "error"
         | some t =>
           let ge := match (mergeTypedefs [] t.lines).bind Core2.translateTok with
